@@ -98,13 +98,14 @@ def module_case(c):
         else:
             y = q(xi)
         yd = deq(y)
-        g = torch.randn(yd.shape, generator=gen).to(dtype)
+        gs_ = float(c.get("gscale", 1.0))  # a scaled loss (fp16 loss scaling): upstream gradients of magnitude ~ gscale
+        g = (torch.randn(yd.shape, generator=gen) * gs_).to(dtype)
         if c["layout"] == "permuted" and g.ndim >= 2:
             perm = list(range(g.ndim))
             perm[0], perm[-1] = perm[-1], perm[0]
             g = g.permute(perm).contiguous().permute(perm)
         elif c["layout"] == "expanded":
-            g = torch.randn((1,) * (yd.ndim - 1) + (yd.shape[-1],), generator=gen).to(dtype).expand(yd.shape)
+            g = (torch.randn((1,) * (yd.ndim - 1) + (yd.shape[-1],), generator=gen) * gs_).to(dtype).expand(yd.shape)
         st = {"iter": it}
         try:
             yd.backward(g)
@@ -193,6 +194,40 @@ def module_case(c):
     return r
 
 
+def chain_case(c):
+    """two quantized linears in a row whose activation qtypes may differ (the second re-quantizes what the first hands over): after a
+    backward pass every parameter of BOTH modules and the input hold a finite gradient that correlates with the float model's"""
+    from optimum.quanto import Calibration
+    torch.manual_seed(c["seed"])
+    dtype = DT[c["dtype"]]
+    model = torch.nn.Sequential(torch.nn.Linear(16, 32), torch.nn.Linear(32, 16)).to(dtype)
+    ref = copy.deepcopy(model)
+    m_first, m_second = model[0], model[1]
+    quantize(model, modules=[m_first], weights=QT[c["weights"]], activations=QT[c["acts"][0]])
+    quantize(model, modules=[m_second], weights=QT[c["weights"]], activations=QT[c["acts"][1]])
+    assert [getattr(m_.activation_qtype, "name", None) for m_ in model] == [getattr(QT[a_], "name", None) for a_ in c["acts"]]
+    x = torch.randn(*c["lead"], 16).to(dtype)
+    with torch.no_grad(), Calibration(streamline=False):
+        model(x)
+    xi = x.clone().requires_grad_(True)
+    y = deq(model(xi))
+    g = torch.randn(y.shape).to(dtype)
+    y.backward(g)
+    xr = x.clone().requires_grad_(True)
+    ref(xr).backward(g)
+    out = {"ok": True, "grads": {}}
+    pairs = [("x", xi.grad, xr.grad)] + [(n_, p_.grad, dict(ref.named_parameters())[n_].grad) for n_, p_ in model.named_parameters()]
+    for n_, a_, b_ in pairs:
+        if a_ is None:
+            out["grads"][n_] = "none"
+        elif not bool(torch.isfinite(a_).all()):
+            out["grads"][n_] = "non-finite"
+        else:
+            cos = float(torch.nn.functional.cosine_similarity(a_.double().reshape(1, -1), b_.double().reshape(1, -1)))
+            out["grads"][n_] = "ok" if cos > 0.8 else f"cosine {cos:.3f} with the float model's gradient"
+    return out
+
+
 def main():
     payload = json.loads(sys.stdin.read())
     if payload.get("prelude", True):
@@ -200,7 +235,12 @@ def main():
         sys.path.insert(0, _os.path.dirname(_os.path.abspath(__file__)))
         from prelude import run_prelude
         run_prelude()
-    out = {"exact": [], "modules": []}
+    out = {"exact": [], "modules": [], "chains": []}
+    for c in payload.get("chains", []):
+        try:
+            out["chains"].append(chain_case(c))
+        except Exception as ex:  # noqa: BLE001
+            out["chains"].append({"ok": False, "exn": type(ex).__name__, "msg": str(ex)[:300]})
     for c in payload.get("exact", []):
         try:
             out["exact"].append(exact_case(c))
